@@ -77,6 +77,7 @@ def run(tier: str, seed: int, rep: Report, model: Model) -> dict:
     n = depth(tier, 1400, 40000)
     rep.rule = ("conforming contexts with exactly one perturbation (report compared field by field) or several (verdict, exception type, "
                 "factuality of the report); distinct = distinct case; non-trivial = the implementation rejected")
+    rep.rule += "; plus contexts in which a named expression meets an already bound name, with every single-axis resize; invalid-reference reports compared with the reference's missing name and bound names"
     cases, exact = [], []
     for c in corpus():
         cases.append(c)
